@@ -322,7 +322,8 @@ def prune : P String := do
         let rowsOk := sn.matches (S + 2) true S (WitnessLP.lpObjective S) (WitnessLP.lpRows S p)
         let a := { a with v := a.v.diffIf (!rowsOk) (s!"WitnessLP lp_rows call={i} rows={c.best.length} scale={ratStr (WitnessLP.usedScale st c.v)}") }
         let mAns := WitnessLP.findWitness (fun _ => sn.answer S) st c.v
-        { a with v := a.v.diffIf (mAns != c.w) (s!"WitnessLP answer call={i} model={mAns.isSome} impl={c.w.isSome}") }
+        -- (the recorded reply is the real Pruner's, `c.w` the rebuilt loop's own lp_solve run: two optimal vertices may differ)
+        { a with v := a.v.diffIf (mAns.isSome != c.w.isSome) (s!"WitnessLP answer call={i} model={mAns.isSome} impl={c.w.isSome}") }
       | _, _ => a) a
   -- oracle contract on the recorded answers (the library's own WitnessLP)
   let badW := calls.any (fun c => match c.w with
@@ -379,6 +380,17 @@ def prune : P String := do
     | .within => { a with within := a.within + 1 }
     | .undecided => { a with undecided := a.undecided + 1 }) a
   return a.render
+
+/-- `reuse S n nWarm vecs warm | eUsed arrUsed eFresh arrFresh` : `Pruner(S)` applied to `vecs` by an object that has just pruned
+    `warm`, and by a fresh object.  `Pruner::operator()` is a function of its arguments (the model starts from `reset()`, and
+    every theorem about `pruner` is about that function): the two results must coincide. -/
+def reuse : P String := do
+  let S ← P.nat; let n ← P.nat; let nW ← P.nat; let xs ← vecsP n S; let _warm ← vecsP nW S; P.bar
+  let eU ← P.nat; let arrU ← vecsP n S; let eF ← P.nat; let arrF ← vecsP n S; P.eof
+  let v : Verdict := { tag := "reuse" }
+  let kind := if wideVecs xs then "result_depends_on_previous_use_at_dynamic_range_above_2p16" else "result_depends_on_previous_use"
+  let v := v.failIf (eU != eF || arrU != arrF) s!"Pruner {kind} kept_used={eU} kept_fresh={eF}"
+  return v.render
 
 /-- `wlp S k best v v2 | a1 a2 snaps` : `WitnessLP` used directly — reset, allocate, addOptimalRow for every row, two questions -/
 def wlp : P String := do
@@ -596,6 +608,7 @@ def handle (toks : List String) : String :=
     | "edi" :: rest => P.run edi rest
     | "prune" :: rest => P.run prune rest
     | "wlp" :: rest => P.run wlp rest
+    | "reuse" :: rest => P.run reuse rest
     | "lpi" :: rest => P.run lpi rest
     | "saw" :: rest => P.run saw rest
     | _ => none
